@@ -87,6 +87,7 @@ theorem nstep_spec (size nthread : Nat) (h1 : 1 ≤ nthread) (hs : size + nthrea
 def cutAt (mem : Bytes) (size nthread i : Nat) : Nat :=
   if i = nthread then size else bfv mem (min (i * Gen.Parse.nstep size nthread) size)
 
+set_option maxRecDepth 8192 in
 /-- **FillData's slices satisfy the cut hypothesis of `C11_thread_invariant_nary_*`**: thread `tid` parses
 `[cutAt tid, cutAt (tid+1))`; the cuts start at 0, end at `size`, are monotone (so the slices are contiguous and
 cover the chunk), and every interior cut is 0 (an empty slice) or the position of an end-of-line byte. -/
@@ -114,8 +115,11 @@ theorem fillData_slices (mem : Bytes) (size nthread : Nat) (h1 : 1 ≤ nthread) 
   have hmin : ∀ i, min (i * N) size < mem.length := fun i => by
     have := Nat.min_le_right (i * N) size; omega
   refine ⟨?_, ?_, ?_, ?_, ?_⟩
-  · have : ¬ (0 = nthread) := by omega
-    simp [cutAt, this, bfv, backFind]
+  · have h0 : ¬ (0 = nthread) := by omega
+    have hm0 : min (0 * N) size = 0 := by rw [Nat.zero_mul]; exact Nat.zero_min _
+    unfold cutAt
+    rw [if_neg h0, hN, hm0]
+    rfl
   · simp [cutAt]
   · intro i hi
     by_cases hl : i + 1 = nthread
@@ -135,12 +139,19 @@ theorem fillData_slices (mem : Bytes) (size nthread : Nat) (h1 : 1 ≤ nthread) 
     exact bfv_shape mem _ (hmin i)
   · intro tid ht
     have h2 : ¬ (tid = nthread) := by omega
-    simp only [threadSlice, hN, hsb tid (by omega), hse tid ht, hlast tid ht, bind, Except.bind,
-      backFind_eq mem _ (hmin tid), pure, Except.pure]
+    have e1 := backFind_eq mem _ (hmin tid)
+    unfold threadSlice
+    rw [hN, hsb tid (by omega), hse tid ht, hlast tid ht, e1]
+    simp only [Except.bind]
     by_cases hl : tid + 1 = nthread
-    · have hfull : min ((tid + 1) * N) size = size := by rw [hl]; omega
-      simp [hl, cutAt, h2, hN]
-      exact Nat.min_eq_right hge
-    · simp only [hl, decide_false, Bool.false_eq_true, if_false, backFind_eq mem _ (hmin (tid + 1)), cutAt, h2, hN]
+    · have hfull : min ((tid + 1) * N) size = size := by rw [hl]; exact Nat.min_eq_right hge
+      rw [decide_eq_true hl, if_pos rfl, hfull]
+      unfold cutAt
+      rw [if_neg h2, if_pos hl, hN]
+    · have e2 := backFind_eq mem _ (hmin (tid + 1))
+      rw [decide_eq_false hl]
+      simp only [Bool.false_eq_true, if_false, e2]
+      unfold cutAt
+      rw [if_neg h2, if_neg hl, hN]
 
 end DmlcModel.Parse
